@@ -56,6 +56,48 @@ func (x *Exec) frameSweep() {
 	sort.Strings(keys)
 	getenvCallers := map[string]bool{}
 	setFromEnvCallers := map[string]bool{}
+	// static callers of every library function (for the field-writer rule: an unexported helper extracted from an allowed
+	// writer, and called by allowed writers only, writes on their behalf)
+	callers := map[string]map[string]bool{}
+	for _, k := range keys {
+		fn := x.allFuncs[k]
+		pkg := k[:strings.Index(k, "::")]
+		if helperPkg(pkg) || fn.Blocks == nil {
+			continue
+		}
+		name := shortPkg(pkg) + "." + k[strings.Index(k, "::")+2:]
+		for _, b := range fn.Blocks {
+			for _, in := range b.Instrs {
+				if ci, ok := in.(ssa.CallInstruction); ok {
+					if callee := ci.Common().StaticCallee(); callee != nil {
+						if ck, ok := x.fnKey[callee]; ok {
+							cn := shortPkg(ck[:strings.Index(ck, "::")]) + "." + ck[strings.Index(ck, "::")+2:]
+							if callers[cn] == nil {
+								callers[cn] = map[string]bool{}
+							}
+							callers[cn][name] = true
+						}
+					}
+				}
+			}
+		}
+	}
+	var mayWrite func(field, name string, depth int) bool
+	mayWrite = func(field, name string, depth int) bool {
+		if cmdFieldWriters[field][name] {
+			return true
+		}
+		base := name[strings.LastIndex(name, ".")+1:]
+		if depth > 3 || base == "" || !(base[0] >= 'a' && base[0] <= 'z') || strings.Contains(base, "$") || len(callers[name]) == 0 {
+			return false
+		}
+		for c := range callers[name] {
+			if c != name && !mayWrite(field, c, depth+1) {
+				return false
+			}
+		}
+		return true
+	}
 	for _, k := range keys {
 		fn := x.allFuncs[k]
 		pkg := k[:strings.Index(k, "::")]
@@ -78,7 +120,7 @@ func (x *Exec) frameSweep() {
 								if stt, ok := nt.Underlying().(*types.Struct); ok {
 									fname := stt.Field(fa.Field).Name()
 									_, fresh := rootOf(in.Addr).(*ssa.Alloc) // the composite literal of a new command
-									if !fresh && !cmdFieldWriters[fname][name] {
+									if !fresh && !mayWrite(fname, name, 0) {
 										specw = append(specw, "Cmd."+fname+" at "+x.posStr(in.Pos()))
 									}
 								}
